@@ -77,6 +77,18 @@ Theorem C10_table : forall (aok : meth -> bool) (C S : policy) (sid : N),
 Proof. exact table_holds. Qed.
 Print Assumptions C10_table.
 
+(* Without any hypothesis (any levels incl. Integrity, any lists, any sub-protocol
+   behaviour): whenever the composed handshake succeeds, an endpoint whose own
+   Encryption or Integrity is REQUIRED has a really encrypting stream, both ends
+   are in the same state and report it. *)
+Theorem C10_required_protection : forall (aok : meth -> bool) (C S : policy) (sid : N) (r : hok),
+  honest aok C S sid = HOk r ->
+  (requires_protection C = true -> k_creal r = true) /\
+  (requires_protection S = true -> k_sreal r = true) /\
+  k_creal r = k_sreal r /\ k_cenc r = k_creal r /\ k_senc r = k_sreal r.
+Proof. exact honest_protection. Qed.
+Print Assumptions C10_required_protection.
+
 (* the retry loop of the bitmask exchange never needs more rounds than the
    client has methods, and ends with a method both sides list *)
 Theorem C10_retry_loop : forall aok (sm cms : list meth) (g : meth),
